@@ -398,7 +398,7 @@ func (vc *VC) applyContract(st *State, con *Contract, name string, args []Val, p
 		pkg = p
 	}
 	pre := st.clone()
-	env := &Env{vc: vc, st: st, old: pre, vars: vars, pkg: pkg, what: "contract of " + name}
+	env := &Env{vc: vc, st: st, old: pre, vars: vars, pkg: pkg, what: "contract of " + name, freshBase: pre.alloc}
 	short := lastSeg(strings.ReplaceAll(con.Key, ").", "."))
 	short = sanitizeKeepDot(con.Key)
 	site := vc.count("call@" + short)
